@@ -488,6 +488,10 @@ func (h *harness) checkSpec(spec *Spec, r *hx.Rand, nDocs int, sample bool) {
 		rep := h.ask(hx.N("schema", specSexp(origX)).String())
 		modelOK := strings.HasPrefix(rep, "(accepted true")
 		ok := modelOK == realOK && (strings.HasPrefix(rep, "(accepted "))
+		goRoots := len(spec.find(spec.Query).Req) == 0 && (spec.Mutation == "" || spec.find(spec.Mutation) == nil || len(spec.find(spec.Mutation).Req) == 0)
+		if realOK && strings.Contains(rep, "rootsUngated") != goRoots {
+			ok = false
+		}
 		run.Oblige(obAccepted, "correspondence", 1, ok, fmt.Sprintf("model %s, schema.New: %v", rep, realErr))
 		if !ok {
 			// the construction rule is part of the property's mechanism: a schema.New that accepts a
@@ -550,7 +554,8 @@ func (h *harness) checkSpec(spec *Spec, r *hx.Rand, nDocs int, sample bool) {
 				if err != nil {
 					d = err.Error()
 				} else {
-					d = diffLines(mv, rv)
+					rv = append(rv, realResolveCandidates(env.full, env.fullW, F, origX, origX)...)
+					d = diffLines(observableRC(mv, rv), rv)
 				}
 				run.Oblige(obView, "correspondence", len(mv), d == "", d)
 				if d != "" {
@@ -566,7 +571,8 @@ func (h *harness) checkSpec(spec *Spec, r *hx.Rand, nDocs int, sample bool) {
 					if err != nil {
 						d = err.Error()
 					} else {
-						d = diffLines(filterGF(mv, env.erasedSp), rv2)
+						rv2 = append(rv2, realResolveCandidates(env.erased, env.erasedW, env.all, origX, expand(env.erasedSp))...)
+						d = diffLines(observableRC(filterGF(mv, env.erasedSp), rv2), rv2)
 					}
 					run.Oblige(obViewErase, "correspondence", len(mv), d == "", d)
 					if d != "" {
@@ -574,6 +580,9 @@ func (h *harness) checkSpec(spec *Spec, r *hx.Rand, nDocs int, sample bool) {
 					}
 				}
 			}
+		}
+		if h.model != nil {
+			h.tieIntrospect(env, spec, F)
 		}
 		// 3. the property itself
 		var qs []query
@@ -596,6 +605,9 @@ func (h *harness) checkSpec(spec *Spec, r *hx.Rand, nDocs int, sample bool) {
 			seed := r.Uint64()
 			what, a, _ := env.differential(q, respect, seed)
 			run.Count("query:" + q.Kind)
+			if h.model != nil && q.Kind == "doc" {
+				h.tieWalk(env, spec, F, q, a)
+			}
 			if q.Kind == "doc" {
 				switch {
 				case a.Panic != "":
@@ -639,6 +651,25 @@ func (h *harness) checkSpec(spec *Spec, r *hx.Rand, nDocs int, sample bool) {
 		}
 	}
 	_ = nontrivial
+}
+
+// observableRC keeps, of the model's type-resolution lines, those about abstract types the real
+// side could observe (there is a callable Query field returning them).
+func observableRC(model, real []string) []string {
+	seen := map[string]bool{}
+	for _, l := range real {
+		if strings.HasPrefix(l, "rc ") {
+			seen[strings.Fields(l)[1]] = true
+		}
+	}
+	var out []string
+	for _, l := range model {
+		if strings.HasPrefix(l, "rc ") && !seen[strings.Fields(l)[1]] {
+			continue
+		}
+		out = append(out, l)
+	}
+	return out
 }
 
 func rootHidden(spec *Spec, F []string) bool {
